@@ -69,6 +69,7 @@ func run(def rules.PropDef, prop, tier string, seed int64, repo, verif, only str
 	}()
 	configs := [][2]string{{"", ""}}
 	if tier == "thorough" {
+		// word size (int is 32 bits on 386) and OS-tagged files
 		configs = [][2]string{{"linux", "amd64"}, {"linux", "386"}, {"windows", "amd64"}, {"darwin", "arm64"}}
 	}
 	rep := &core.Report{Property: prop, Tier: tier, Seed: seed, Start: start, Counts: map[string]int{}, Extra: map[string]any{},
@@ -114,6 +115,19 @@ func run(def rules.PropDef, prop, tier string, seed int64, repo, verif, only str
 		rep.Notes = append(rep.Notes, ctx.Notes...)
 	}
 	rep.Extra["build_configurations"] = cfgNames
+	if tier == "thorough" && os.Getenv("GMCHECK_NO_MUTANTS") == "" {
+		// kill matrix: guards the checker itself; the verdict of the run is the unmodified tree's
+		ms := runMutants(prop, repo, verif)
+		killed, total, regress, lines := summarizeMutants(ms)
+		rep.Extra["mutants"] = ms
+		rep.Extra["mutants_killed"] = killed
+		rep.Extra["mutants_total"] = total
+		rep.Extra["mutants_expected_but_missed"] = regress
+		for _, l := range lines {
+			fmt.Fprintln(os.Stderr, l)
+		}
+		rep.Notes = append(rep.Notes, fmt.Sprintf("kill matrix: %d/%d registered changes reported (%d expected-but-missed); each applied to a scratch copy, type-checked and analysed, never executed", killed, total, regress))
+	}
 	// positive / negative controls
 	if !noFixtures {
 		fobs, ferr := rules.RunFixtures(verif, def)
